@@ -1,13 +1,288 @@
 /-
 C11 — Authorization holds on every entry point and follows the rights currently saved.
-(property theorems; under construction)
+
+Property theorems only.  The model is IpcHub/Model/Auth.lean + AuthSess.lean (instantiated with the
+regenerated facts in Model/AuthInst.lean), the specification is the reference monitor of
+IpcHub/Spec/Monitor.lean on top of C16's `specPermits`; helper lemmas live in IpcHub/Lemmas/Auth*.lean.
+
+Reading guide.  The monitor *judges* an observed outcome of an entry point: `Verdict.ok`, `.unsound`
+(something was granted that the rights as last saved forbid) or `.incomplete` (a caller who holds
+the right was refused).  Each "…_ok" theorem says: for EVERY model state related to the monitor's
+state (`Rel`: same administrative history, tokens valid exactly as the monitor's grants) and EVERY
+request, the outcome the model produces is judged `ok` — soundness and completeness at once.
+`c11_rel_users` discharges the user half of `Rel` for every administrative history, the token
+theorems the other half; the session theorems also show their invariants are preserved, so the
+statements hold along every request sequence.
 -/
-import IpcHub.Spec.Monitor
+import IpcHub.Lemmas.AuthRel
 import IpcHub.Model.AuthInst
 namespace IpcHub.Props.C11
 open IpcHub.PathMatch IpcHub.PatternLang IpcHub.Auth IpcHub.Monitor
 
-/-- placeholder while the pipeline is brought up -/
-theorem c11_unknown_facts : IpcHub.Gen.c11FactsUnknown = [] := by decide
+/-- the monitor's environment: ASCII character functions, the registry's key function, and the
+    API paths that are open / read-only by design (docs/apis.md) -/
+def env : Env :=
+  { lower := asciiLower, isSpace := asciiSpace, canon := canonicalPath genCfg,
+    openPaths := ["/api/v1/login", "/api/v1/refreshtoken", "/api/v1/runtime", "/api/v1/server"].map String.toList,
+    streamQueryPrefix := "/api/v1/streams".toList }
+
+/-! ## the source facts (regenerated from /repo on every run) -/
+
+/-- Every tracked function of the current source tree has the skeleton (guards, tracked calls,
+    assignments, returns, in order) of the reviewed code the model mirrors; the translator
+    recognised every shape.  A dropped or reordered check, a changed constant or table breaks this. -/
+theorem c11_source_facts :
+    Gen.c11FactsUnknown = [] ∧
+    Gen.skel_userInit = Expected.skel_userInit ∧
+    Gen.skel_userCopyFrom = Expected.skel_userCopyFrom ∧
+    Gen.skel_userValidatePermission = Expected.skel_userValidatePermission ∧
+    Gen.skel_userValidatePassword = Expected.skel_userValidatePassword ∧
+    Gen.skel_managerGet = Expected.skel_managerGet ∧
+    Gen.skel_managerSave = Expected.skel_managerSave ∧
+    Gen.skel_managerDel = Expected.skel_managerDel ∧
+    Gen.skel_tokenNew = Expected.skel_tokenNew ∧
+    Gen.skel_tokenRefresh = Expected.skel_tokenRefresh ∧
+    Gen.skel_tokenAccessCheck = Expected.skel_tokenAccessCheck ∧
+    Gen.skel_tokenExpCheck = Expected.skel_tokenExpCheck ∧
+    Gen.skel_newSecret = Expected.skel_newSecret ∧
+    Gen.skel_canonicalPathLoop = Expected.skel_canonicalPathLoop ∧
+    Gen.skel_canonicalPathOnce = Expected.skel_canonicalPathOnce ∧
+    Gen.skel_streamInterceptor = Expected.skel_streamInterceptor ∧
+    Gen.skel_permissionInterceptor = Expected.skel_permissionInterceptor ∧
+    Gen.skel_extractStreamPathAndExt = Expected.skel_extractStreamPathAndExt ∧
+    Gen.skel_onStreamsRequest = Expected.skel_onStreamsRequest ∧
+    Gen.skel_onWebSocketRequest = Expected.skel_onWebSocketRequest ∧
+    Gen.skel_authInterceptor = Expected.skel_authInterceptor ∧
+    Gen.skel_roleInterceptor = Expected.skel_roleInterceptor ∧
+    Gen.skel_onLogin = Expected.skel_onLogin ∧
+    Gen.skel_onRefreshToken = Expected.skel_onRefreshToken ∧
+    Gen.skel_hlsGetTS = Expected.skel_hlsGetTS ∧
+    Gen.skel_hlsGetM3u8 = Expected.skel_hlsGetM3u8 ∧
+    Gen.skel_flvConsumeByHTTP = Expected.skel_flvConsumeByHTTP ∧
+    Gen.skel_flvConsumeByWebsocket = Expected.skel_flvConsumeByWebsocket ∧
+    Gen.skel_rtspNewSessionWs = Expected.skel_rtspNewSessionWs ∧
+    Gen.skel_rtspCheckPermission = Expected.skel_rtspCheckPermission ∧
+    Gen.skel_rtspHttpAuthed = Expected.skel_rtspHttpAuthed ∧
+    Gen.skel_rtspCheckAuth = Expected.skel_rtspCheckAuth ∧
+    Gen.skel_rtspOnPreprocess = Expected.skel_rtspOnPreprocess ∧
+    Gen.skel_rtspOnRequest = Expected.skel_rtspOnRequest ∧
+    Gen.skel_rtspOnDescribe = Expected.skel_rtspOnDescribe ∧
+    Gen.skel_rtspOnAnnounce = Expected.skel_rtspOnAnnounce ∧
+    Gen.skel_rtspOnSetup = Expected.skel_rtspOnSetup ∧
+    Gen.skel_rtspOnRecord = Expected.skel_rtspOnRecord ∧
+    Gen.skel_rtspOnPlay = Expected.skel_rtspOnPlay ∧
+    Gen.skel_rtspAsTCPPusher = Expected.skel_rtspAsTCPPusher ∧
+    Gen.skel_wspHandshakeData = Expected.skel_wspHandshakeData ∧
+    Gen.skel_wspAcceptsDataChannel = Expected.skel_wspAcceptsDataChannel ∧
+    Gen.skel_wspCheckPermission = Expected.skel_wspCheckPermission ∧
+    Gen.skel_wspOnDescribe = Expected.skel_wspOnDescribe ∧
+    Gen.skel_wspOnPlay = Expected.skel_wspOnPlay ∧
+    Gen.skel_wspOnPreprocess = Expected.skel_wspOnPreprocess ∧
+    Gen.skel_wspOnRequest = Expected.skel_wspOnRequest ∧
+    Gen.skel_wspNewSession = Expected.skel_wspNewSession ∧
+    Gen.noAuthRequired = Expected.noAuthRequired ∧
+    Gen.apiRoutes = Expected.apiRoutes ∧
+    Gen.apiInterceptorChain = Expected.apiInterceptorChain ∧
+    Gen.apiMuxHandler = Expected.apiMuxHandler ∧
+    Gen.streamsMux = Expected.streamsMux ∧
+    Gen.roleExemptPrefix = Expected.roleExemptPrefix ∧
+    Gen.tokenField_Username = Expected.tokenField_Username ∧
+    Gen.tokenField_AToken = Expected.tokenField_AToken ∧
+    Gen.tokenField_AExp = Expected.tokenField_AExp ∧
+    Gen.tokenField_RToken = Expected.tokenField_RToken ∧
+    Gen.tokenField_RExp = Expected.tokenField_RExp ∧
+    Gen.accessTTL = Expected.accessTTL ∧
+    Gen.refreshTTL = Expected.refreshTTL ∧
+    Gen.securityRandImports = Expected.securityRandImports ∧
+    Gen.rtspRealmExpr = Expected.rtspRealmExpr :=
+  ⟨rfl, rfl, rfl, rfl, rfl, rfl, rfl, rfl, rfl, rfl, rfl, rfl, rfl, rfl, rfl, rfl, rfl, rfl, rfl, rfl, rfl, rfl, rfl, rfl, rfl, rfl, rfl, rfl, rfl, rfl, rfl, rfl, rfl, rfl, rfl, rfl, rfl, rfl, rfl, rfl, rfl, rfl, rfl, rfl, rfl, rfl, rfl, rfl, rfl, rfl, rfl, rfl, rfl, rfl, rfl, rfl, rfl, rfl, rfl, rfl, rfl, rfl, rfl⟩
+
+/-- what the model flags computed from those skeletons are, for the current tree -/
+theorem c11_model_flags :
+    genCfg.initResets = true ∧ genCfg.tsPermDir = true ∧ genCfg.permCanonical = true ∧
+    genCfg.wsRtspChecks = true ∧ genCfg.digestShowsNewNonce = true ∧ genCfg.wspJoinChecks = true ∧
+    genCfg.wspPlayChecks = true ∧ genCfg.accessTTL = 7200 ∧ genCfg.refreshTTL = 604800 ∧
+    genCfg.noAuth = env.openPaths ∧ genCfg.streamQueryPrefix = env.streamQueryPrefix ∧
+    genCfg.pm.pathTrims = false := by
+  have e1 : Gen.skel_userInit = Expected.skel_userInit := rfl
+  have e2 : Gen.skel_permissionInterceptor = Expected.skel_permissionInterceptor := rfl
+  have e3 : Gen.skel_rtspCheckPermission = Expected.skel_rtspCheckPermission := rfl
+  have e4 : Gen.skel_rtspHttpAuthed = Expected.skel_rtspHttpAuthed := rfl
+  have e5 : Gen.skel_rtspCheckAuth = Expected.skel_rtspCheckAuth := rfl
+  have e6 : Gen.skel_rtspOnPreprocess = Expected.skel_rtspOnPreprocess := rfl
+  have e7 : Gen.skel_wspHandshakeData = Expected.skel_wspHandshakeData := rfl
+  have e8 : Gen.skel_wspAcceptsDataChannel = Expected.skel_wspAcceptsDataChannel := rfl
+  have e9 : Gen.skel_wspCheckPermission = Expected.skel_wspCheckPermission := rfl
+  have e10 : Gen.skel_wspOnDescribe = Expected.skel_wspOnDescribe := rfl
+  have e11 : Gen.skel_wspOnPlay = Expected.skel_wspOnPlay := rfl
+  refine ⟨?_, ?_, ?_, ?_, ?_, ?_, ?_, rfl, rfl, rfl, rfl, rfl⟩
+  · exact decide_eq_true e1
+  · exact decide_eq_true e2
+  · exact decide_eq_true e2
+  · simp only [Auth.genCfg, e3, e4, e5, decide_true, Bool.and_self]
+  · exact decide_eq_true e6
+  · simp only [Auth.genCfg, e7, e8, decide_true, Bool.and_self]
+  · simp only [Auth.genCfg, e9, e10, e11, decide_true, Bool.and_self]
+
+
+/-- facts about the ASCII character functions and the regenerated source facts, in the form the
+    generic lemmas take them -/
+theorem c11_user_facts : UserFacts Auth.genCfg env :=
+  ⟨asciiLower_idem, c11_model_flags.1, c11_model_flags.2.2.2.2.2.2.2.2.2.2.2, by decide, rfl, rfl⟩
+
+theorem c11_char_facts : CharOK Auth.genCfg := ⟨asciiLower_idem, by decide, by decide⟩
+
+/-! ## rights follow the last save -/
+
+/-- **Rights as last saved.**  For EVERY administrative history `h` (saves — creations and updates,
+    with or without password — and deletes, most recent first, of any length), every user name,
+    path and right: what the model's user table (built by `manager.Save` / `Del`, `User.init`,
+    `CopyFrom`, `initMatchers`) lets `ValidatePermission` decide is exactly the documented pattern
+    language applied to the right string LAST SAVED for that name; `false` if the user was deleted
+    since or never existed.  Old rights grant nothing, held rights are never refused. -/
+theorem c11_rights_follow_save (h : List AdminOp) (n p : List Char) (rt : Right) :
+    (match getUser Auth.genCfg (usersOf Auth.genCfg h) n with
+      | none => false
+      | some u => u.validatePermission Auth.genCfg p rt) = allowed env h n (actOf rt) p :=
+  perm_usersOf Auth.genCfg env c11_user_facts h n p rt
+
+/-- after a delete nothing is allowed, whatever was saved before -/
+theorem c11_deleted_user_has_no_rights (h : List AdminOp) (n p : List Char) (rt : Right) :
+    (match getUser Auth.genCfg (usersOf Auth.genCfg (.del n :: h)) n with
+      | none => false
+      | some u => u.validatePermission Auth.genCfg p rt) = false := by
+  rw [c11_rights_follow_save]
+  simp [allowed, lastSaved]
+
+/-- after a save the decision depends on the strings just saved and on nothing older -/
+theorem c11_saved_rights_replace_old (h : List AdminOp) (u : UserIn) (upd : Bool) (p : List Char) :
+    (match getUser Auth.genCfg (usersOf Auth.genCfg (.save u upd :: h)) u.name with
+      | none => false
+      | some x => x.validatePermission Auth.genCfg p .pull)
+      = specPermits asciiLower asciiSpace u.pull u.admin p := by
+  rw [c11_rights_follow_save]
+  simp [allowed, lastSaved, actOf, env]
+
+/-- administrators are exactly the users last saved as administrators -/
+theorem c11_admin_follows_save (h : List AdminOp) (n : List Char) :
+    (match getUser Auth.genCfg (usersOf Auth.genCfg h) n with
+      | none => false
+      | some u => u.admin) = allowed env h n .admin [] :=
+  admin_usersOf Auth.genCfg env c11_user_facts h n
+
+/-- The relation the decision theorems assume holds for the table built from the monitor's own
+    history, given a token table that answers like the monitor's grants (`c11_tokens_*`). -/
+theorem c11_rel_users (w : World) (sw : SWorld)
+    (hu : w.users = usersOf Auth.genCfg sw.hist) (ha : w.authOn = sw.authOn)
+    (ht : ∀ t, (accessCheck w.toks t w.now).2 = validAccess sw.grants sw.now t) :
+    Rel Auth.genCfg env w sw :=
+  rel_of_history Auth.genCfg env c11_user_facts w sw hu ha ht
+
+/-! ## the entry points -/
+
+/-- **HTTP-FLV, HLS playlist, HLS segment** (`/streams/...` without upgrade).  For every related
+    state, method (GET, CONNECT — whose path net/http does not clean —, other), URL path and
+    token: media of registry key `k` is served only if the token is a valid access token of a user
+    whose pull right as last saved covers `k` (for a segment: the stream it belongs to), and 401 /
+    403 are never answered to such a user asking for a resource his right covers. -/
+theorem c11_http_streams_ok (w : World) (sw : SWorld) (r : Rel Auth.genCfg env w sw)
+    (m : HMethod) (path : List Char) (tok : TokRef) :
+    judgeHttp env sw path tok (httpStream Auth.genCfg w m path tok).2 = .ok :=
+  httpStream_ok Auth.genCfg env rfl c11_model_flags.2.1 c11_model_flags.2.2.1 w sw r m path tok
+
+/-- **Management API.**  A call reaches the router without a token only on the four open paths, with
+    a token only if it is a valid access token and (the call is a read-only stream query or the
+    user is an administrator as last saved); administrators and stream queries are not refused. -/
+theorem c11_api_ok (w : World) (sw : SWorld) (r : Rel Auth.genCfg env w sw)
+    (m : HMethod) (isGet : Bool) (path : List Char) (tok : TokRef) :
+    judgeApi env sw isGet path tok (apiGate Auth.genCfg w m isGet path tok).2 = .ok :=
+  apiGate_ok Auth.genCfg env rfl c11_model_flags.2.2.2.2.2.2.2.2.2.1.symm
+    c11_model_flags.2.2.2.2.2.2.2.2.2.2.1.symm w sw r m isGet path tok
+
+/-- **WebSocket upgrade** (WS-FLV, and the hand-over to ws-rtsp / WSP): no connection without an
+    authenticated caller, FLV of `k` only with the pull right on `k`, no false denial. -/
+theorem c11_ws_upgrade_ok (w : World) (sw : SWorld) (r : Rel Auth.genCfg env w sw)
+    (path : List Char) (tok : TokRef) (sub : WsSub) :
+    judgeWs env sw path tok (wsUpgrade Auth.genCfg w path tok sub).2 = .ok :=
+  wsUpgrade_ok Auth.genCfg env rfl c11_model_flags.2.1 c11_model_flags.2.2.1 w sw r path tok sub
+
+/-- **RTSP, one request** (plain or over WebSocket).  In a session satisfying the invariants, for
+    every request (any method, URL, credentials, SDP / transport outcome): an SDP is returned, a
+    consumer attached or a stream published under key `k` only for a caller authenticated in THIS
+    request (fresh digest of the saved password; for WebSocket the token user, looked up again)
+    whose pull / push right as last saved covers `k`; 401 / 403 never hit a caller who holds the
+    right on the session's resource.  Switching path or user mid-session and publishing through a
+    WebSocket session are ordinary requests here. -/
+theorem c11_rtsp_step_ok (w : World) (sw : SWorld) (r : Rel Auth.genCfg env w sw) (hon : sw.authOn = true)
+    (s : RtspSess) (ss : SSess) (hd : s.digest = (s.ws.isNone && w.authOn))
+    (inv : SInv Auth.genCfg s) (rel : SessRel s ss) (rq : RtspReq) (hfresh : FreshOK s rq) :
+    judgeRtsp env sw ss s.ws rq (rtspStep Auth.genCfg w s rq).2.2 = .ok :=
+  rtspStep_ok Auth.genCfg env w sw c11_char_facts rfl c11_model_flags.2.2.2.1 r hon rfl s ss hd inv rel rq hfresh
+
+/-- ... and every request preserves the invariants, so `c11_rtsp_step_ok` applies to the next one:
+    by induction, to every request sequence, whatever happens to users and tokens in between. -/
+theorem c11_rtsp_invariants (w : World) (s : RtspSess) (ss : SSess)
+    (inv : SInv Auth.genCfg s) (rel : SessRel s ss) (rq : RtspReq) :
+    let res := rtspStep Auth.genCfg w s rq
+    SInv Auth.genCfg res.2.1 ∧ SessRel res.2.1 (ss.step env s.ws rq res.2.2) ∧
+      res.2.1.digest = s.digest ∧ res.2.1.ws = s.ws :=
+  rtspStep_keeps Auth.genCfg env w c11_char_facts rfl c11_model_flags.2.2.2.2.1 s ss inv rel rq
+
+/-- a new plain RTSP session satisfies the invariants -/
+theorem c11_rtsp_plain_session_init (w : World) (id : Nat) :
+    SInv Auth.genCfg (newRtspSess w id none) ∧ SessRel (newRtspSess w id none) {} ∧
+      (newRtspSess w id none).digest = ((newRtspSess w id none).ws.isNone && w.authOn) := by
+  refine ⟨⟨?_, ?_, ?_, Or.inl rfl⟩, ⟨rfl, ?_⟩, rfl⟩ <;> simp [newRtspSess]
+
+/-- FULL STATEMENT: a new WebSocket RTSP session satisfies the invariants.
+    PROVED (`_partial`): for a WebSocket opened on a stream path that is its own canonical form
+    (lower case, no `//`, `.` or `..` elements, no surrounding blanks).  EXCLUDED: other spellings of
+    the ws:// path (e.g. upper case letters: GET requests are path-cleaned by net/http but not
+    case-folded) — for those the session validates the raw path while the registry looks up the
+    canonical one; the two agree on every spelling the correspondence run generates, but this is
+    not proved. -/
+theorem c11_rtsp_ws_session_init_partial (w : World) (id : Nat) (c : WsConn)
+    (hc : canonicalPath Auth.genCfg c.path = c.path) :
+    SInv Auth.genCfg (newRtspSess w id (some c)) ∧ SessRel (newRtspSess w id (some c)) { resource := c.path } ∧
+      (newRtspSess w id (some c)).digest = ((newRtspSess w id (some c)).ws.isNone && w.authOn) := by
+  refine ⟨⟨?_, ?_, ?_, Or.inl rfl⟩, ⟨rfl, ?_⟩, rfl⟩
+  · simp [newRtspSess]
+  · intro _; exact hc
+  · intro _; exact hc
+  · simp [newRtspSess]
+
+/-- **WSP control channel, one request**: SDP / RTP of `k` go to the control channel's user (and to
+    the joined data channel's user) only while that user's pull right as last saved covers `k`;
+    no false 403. -/
+theorem c11_wsp_step_ok (w : World) (sw : SWorld) (r : Rel Auth.genCfg env w sw)
+    (s : WspSess) (inv : WspInv Auth.genCfg w s) (m : Method) (ctrl : Ctrl) (trOk : Bool) :
+    judgeWsp env sw s.conn s.data (wspStep Auth.genCfg w s m ctrl trOk).2 = .ok :=
+  wspStep_ok Auth.genCfg env w sw rfl c11_model_flags.2.2.2.2.2.2.1 c11_model_flags.2.2.2.2.2.1 r s inv m ctrl trOk
+
+/-- **WSP data channel JOIN**: a data channel is attached to a session (and so handed the RTP of
+    what the session is consuming) only if it was opened by the same user on the same path and
+    that user's pull right still covers it; such a channel is not refused. -/
+theorem c11_wsp_join_ok (w : World) (sw : SWorld) (r : Rel Auth.genCfg env w sw)
+    (s : WspSess) (inv : WspInv Auth.genCfg w s)
+    (hatt : ∀ k, s.attached = some k → k = s.conn.path) (dc : WsConn) :
+    judgeJoin env sw (some (s.conn, s.attached)) dc (wspJoin Auth.genCfg w (some s) dc).1 = .ok :=
+  wspJoin_ok Auth.genCfg env w sw rfl c11_model_flags.2.2.2.2.2.2.1 c11_model_flags.2.2.2.2.2.1 r s inv hatt dc
+
+/-- the WSP invariants are preserved by every control request (and by JOIN: `wspJoin_keeps`), and a
+    session created on a canonical path starts with them -/
+theorem c11_wsp_invariants (w : World) (s : WspSess) (inv : WspInv Auth.genCfg w s)
+    (hatt : ∀ k, s.attached = some k → k = s.conn.path) (m : Method) (ctrl : Ctrl) (trOk : Bool) :
+    WspInv Auth.genCfg w (wspStep Auth.genCfg w s m ctrl trOk).1 ∧
+    (∀ k, (wspStep Auth.genCfg w s m ctrl trOk).1.attached = some k → k = s.conn.path) ∧
+    (wspStep Auth.genCfg w s m ctrl trOk).1.conn = s.conn :=
+  wspStep_keeps Auth.genCfg w s inv hatt m ctrl trOk
+
+theorem c11_wsp_session_init_partial (w : World) (i : Nat) (c : WsConn)
+    (hc : canonicalPath Auth.genCfg c.path = c.path) :
+    WspInv Auth.genCfg w { chan := i, conn := c } := by
+  refine ⟨?_, ?_, ?_, hc⟩
+  · intro _ d hd; simp at hd
+  · intro h; simp at h
+  · intro h; simp at h
 
 end IpcHub.Props.C11
